@@ -8,6 +8,8 @@ from .. import fields, paths
 from ..core import FUNC, call_attr, calls_in, const, dotted, is_const, kwarg, norm, slice_parts, text, walk_local
 
 EXPLANATION = [
+    'C10.integer-arithmetic: no true division in the anchored modules: sizes and budgets are integers (a fractional budget admits one entry too many).',
+    'C10.except-name: no name bound by `except ... as name` is read after its handler: Python deletes it when the handler ends, so the read raises UnboundLocalError exactly when the exception was caught.',
     'C10.sdu-boundary: (shared with C12) LeCreditBasedChannel.process_output closes the SDU it is assembling as soon as one queued packet has been consumed entirely: two ATT PDUs written on an enhanced bearer never share an SDU.',
     "C10.identity: no `is` / `is not` comparison in the anchored modules has an operand declared as a number, byte string or string (identity of equal integers holds only inside CPython's small-integer cache, so such a test is right for values up to 256 and wrong afterwards).",
     'C10.uuid-wire: sizes and bytes of UUIDs in ATT PDUs are taken from to_pdu_bytes(), never bytes(uuid) (same rule as C12.uuid-wire): the space accounting of a response counts what is actually written (32-bit UUIDs expand to 128 bits).',
@@ -613,7 +615,19 @@ def sdu_boundary_rule(ctx):
     sdu_boundary(ctx, 'C10.sdu-boundary')
 
 
+def except_name_rule(ctx):
+    from ..generic_rules import except_name_escape
+    except_name_escape(ctx, 'C10.except-name', ['bumble.gatt_server', 'bumble.att', 'bumble.gatt'])
+
+
+def integer_arithmetic_rule(ctx):
+    from ..generic_rules import integer_arithmetic
+    integer_arithmetic(ctx, 'C10.integer-arithmetic', ['bumble.gatt_server', 'bumble.att', 'bumble.gatt'])
+
+
 RULES = [
+    ('C10.integer-arithmetic', integer_arithmetic_rule),
+    ('C10.except-name', except_name_rule),
     ('C10.sdu-boundary', sdu_boundary_rule),
     ('C10.identity', identity_rule),
     ('C10.uuid-wire', uuid_wire_shared),
